@@ -1,5 +1,6 @@
 import UvModel.DriverUtil
 import UvModel.FsBuf
+import UvModel.FsReq
 /-! line-protocol driver for C11 (a): mode `fsbuf`; the other side is harness/c11_fsbuf.c -/
 namespace Drivers.C11
 open UvModel.DriverUtil UvModel.FsBuf
@@ -114,7 +115,82 @@ where
     | [], _ => []
     | l :: ls, s => s :: prefixStarts ls (s + l)
 
+/-! ## mode `fsreq`: request life cycle (UvModel.FsReq); the other side is harness/c11_reqlife.c -/
+section FsReqMode
+open UvModel.FsReq
+
+def opOfName (n : String) : Option Op :=
+  Op.all.find? fun o => (reprStr o).splitOn "." |>.getLast? |>.map (· == n) |>.getD false
+
+def roleName : Role → String
+  | .path => "path" | .path2 => "path2" | .bufs => "bufs" | .statx => "statx" | .res => "res"
+  | .dents => "dents" | .dent => "dent" | .name => "name" | .dir => "dir" | .dirstream => "dirstream"
+
+def showLive (a : Args) (l : Ledger) : String :=
+  let items := l.blocks.map fun r =>
+    match r with
+    | .path | .path2 | .bufs => s!"{roleName r}[{blockSize a r}]"
+    | _ => roleName r
+  if items.isEmpty then "-" else ",".intercalate items
+
+def showObs (label : String) (a : Args) (o : Out) (s : St) : String :=
+  let ret := match o with
+    | .ret v => s!"{v}" | .cb => "-" | .none => "-" | .illegal => "ILLEGAL"
+  let route := if label = "submit" then
+      " route=" ++ (match s.phase with
+        | .rejected => "rejected" | .done => "sync" | .queued => "pool" | .uring => "uring" | _ => "?")
+    else ""
+  let path := match s.req.path with | .null => "null" | .user => "user" | .heap => "heap"
+  let bufs := match s.req.bufs with | .null => "null" | .sml => "sml" | .user => "user" | .heap => "heap"
+  let ptr := match s.req.ptr with
+    | .null => "null" | .statbuf => "statbuf" | .statx => "statx" | .res => "res" | .dents => "dents" | .dir => "dir"
+  let bad := if s.l.badFree = 0 then "" else s!" BADFREE={s.l.badFree}"
+  s!"{label} ret={ret}{route} live={showLive a s.l} result={s.req.result} path={path} newpath={if s.req.newPath then 1 else 0} " ++
+  s!"bufs={bufs} ptr={ptr} active={s.active} cbs={s.cbs}{bad}"
+
+def parseReqOuts (s : String) : Option (List Outcome) :=
+  if s = "-" then some [] else (s.splitOn ",").mapM fun tok =>
+    if tok.startsWith "ok" then (tok.drop 2).toString.toNat?.map .ok
+    else if tok.startsWith "E" then (tok.drop 1).toString.toNat?.map .fail
+    else none
+
+def reqStep (st : Args × St) : List String → (Args × St) × List String
+  | [] => (st, [])
+  | "case" :: args =>
+    match (kv "op" args).bind opOfName, (kv "cb" args).bind String.toNat?, (kv "ring" args).bind String.toNat?,
+          (kv "kernel" args).bind String.toNat?, (kv "nbufs" args).bind String.toNat?, (kv "argsok" args).bind String.toNat?,
+          (kv "oom" args).bind String.toNat?, (kv "plen" args).bind String.toNat?, (kv "nlen" args).bind String.toNat?,
+          (kv "outs" args).bind parseReqOuts with
+    | some op, some cb, some ring, some kernel, some nbufs, some argsok, some oom, some plen, some nlen, some outs =>
+      -- the route table of FsBuf decides whether the front end gets an SQE
+      let cfg : Cfg := ⟨cb ≠ 0, ring ≠ 0, true, true, true, kernel, decide (nbufs ≤ 1024)⟩
+      let a : Args := ⟨op, cb ≠ 0, route cfg op == .uring, nbufs, argsok ≠ 0, oom ≠ 0, plen, nlen, outs⟩
+      ((a, init a), [])
+    | _, _, _, _, _, _, _, _, _, _ => (st, ["bad-op"])
+  | [ev] =>
+    let e? : Option Ev := match ev with
+      | "submit" => some .submit | "cancel" => some .cancel | "done" => some .done
+      | "next" => some .next | "cleanup" => some .cleanup | _ => none
+    match e? with
+    | some e => let r := UvModel.FsReq.step st.1 st.2 e; ((st.1, r.1), [showObs ev st.1 r.2 r.1])
+    | none => (st, ["bad-op"])
+  | ["work", outs] =>
+    match parseReqOuts outs with
+    | some os => let r := UvModel.FsReq.step st.1 st.2 (.work os); ((st.1, r.1), [showObs "work" st.1 r.2 r.1])
+    | none => (st, ["bad-op"])
+  | ["cqe", res] =>
+    match res.toInt? with
+    | some v => let r := UvModel.FsReq.step st.1 st.2 (.cqe v); ((st.1, r.1), [showObs "cqe" st.1 r.2 r.1])
+    | none => (st, ["bad-op"])
+  | _ => (st, ["bad-op"])
+
+def reqInit : Args × St :=
+  let a : Args := ⟨.access, false, false, 0, true, false, 0, 0, []⟩
+  (a, init a)
+
+end FsReqMode
+
 /-- (mode name, action).  `uvdriver <mode>` runs the action (normally `runLines init step`). -/
-def modes : List (String × IO Unit) := [("fsbuf", runLines 1024 step)]
+def modes : List (String × IO Unit) := [("fsbuf", runLines 1024 step), ("fsreq", runLines reqInit reqStep)]
 
 end Drivers.C11
